@@ -248,10 +248,15 @@ var gateAfter = map[string]string{"CExec": "c.exec", "CPrepare": "write", "CWrit
 	"QStart": "get:cinfo", "QResolve": "hook:rootmulti.immutableAtVersion:enter", "QAcquire": "get:cinfo"}
 
 func (w *world) judge(st mbt.Step, o *outcome, refHashes []string) {
-	q := w.q
+	judgeObs(w.q, w.qproc, w.cfg.Snapshots, st, o,
+		fmt.Sprintf("published height %d, durable %d, query snapshot %d", w.p.App.LastBlockHeight(), w.g.DurableVersion(), w.g.LastSnapshotVersion()))
+}
+
+// judgeObs evaluates the property on the values one real query returned.
+func judgeObs(q *queryObs, qproc *Proc, snapshots bool, st mbt.Step, o *outcome, where string) {
 	o.queries++
-	if w.qproc.Panic != nil {
-		o.violKey, o.violWhat = "C28:query-panic:"+q.Kind, fmt.Sprintf("query %s panicked: %v | %s", q.Kind, w.qproc.Panic, mbt.ShortStack(w.qproc.Stack))
+	if qproc.Panic != nil {
+		o.violKey, o.violWhat = "C28:query-panic:"+q.Kind, fmt.Sprintf("query %s panicked: %v | %s", q.Kind, qproc.Panic, mbt.ShortStack(qproc.Stack))
 		return
 	}
 	if !q.Err {
@@ -263,10 +268,10 @@ func (w *world) judge(st mbt.Step, o *outcome, refHashes []string) {
 			}
 			if i < len(q.Durable) && q.Tags[i] > q.Durable[i] && o.violKey == "" {
 				o.violKey = "C28:uncommitted-read:" + q.Kind
-				o.violWhat = fmt.Sprintf("%s query read %s=%d while the durable height was %d (%s)", q.Kind, q.Stores[i], q.Tags[i], q.Durable[i], q.Raw)
+				o.violWhat = fmt.Sprintf("%s query read %s=%d while the durable height was %d (%s; %s)", q.Kind, q.Stores[i], q.Tags[i], q.Durable[i], q.Raw, where)
 			}
 		}
-		if mixed && w.cfg.Snapshots && o.violKey == "" {
+		if mixed && snapshots && o.violKey == "" {
 			cls := "unordered"
 			var mt, bt int64 = -1, -1
 			for i, st := range q.Stores {
@@ -282,8 +287,7 @@ func (w *world) judge(st mbt.Step, o *outcome, refHashes []string) {
 				cls = "versioned-store-ahead-of-snapshot"
 			}
 			o.violKey = "C28:mixed-heights:" + q.Kind + ":" + cls
-			o.violWhat = fmt.Sprintf("one %s query returned values of different heights: %s (published height %d, durable %d, query snapshot %d)",
-				q.Kind, q.Raw, w.p.App.LastBlockHeight(), w.g.DurableVersion(), w.g.LastSnapshotVersion())
+			o.violWhat = fmt.Sprintf("one %s query returned values of different heights: %s = heights %v of %v (%s)", q.Kind, q.Raw, q.Tags, q.Stores, where)
 		}
 		if mixed {
 			o.mixedSeen = true
@@ -440,11 +444,11 @@ func parseCfg(x string) config {
 
 func main() {
 	f := mbt.ParseFlags()
-	if f.Mode == "stress" {
-		stress(f)
+	cfg := parseCfg(f.Extra)
+	if f.Mode == "gno" {
+		gnoMain(f, cfg)
 		return
 	}
-	cfg := parseCfg(f.Extra)
 	if cfg.Fine && !hooksAvailable {
 		mbt.Die("fine schedules need the verifhook build")
 	}
@@ -527,4 +531,102 @@ func actsOf(b []mbt.Step) []string {
 		out = append(out, a)
 	}
 	return out
+}
+
+// gnoMain: the schedules on the real gno.land application (-n = how many, picked by the seed).
+func gnoMain(f *mbt.Flags, cfg config) {
+	behs, err := mbt.ReadBehaviours(f.In)
+	if err != nil {
+		mbt.Die("%v", err)
+	}
+	var pick [][]mbt.Step
+	for _, b := range behs { // only complete queries of the kinds the VM serves are interesting here
+		ok, hasQ := true, false
+		for _, st := range b {
+			if st.Str("kind") == "store" {
+				ok = false
+			}
+			if st.Act() == "QEnd" {
+				hasQ = true
+			}
+		}
+		if ok && hasQ {
+			pick = append(pick, b)
+		}
+	}
+	rng := f.Rand()
+	rng.Shuffle(len(pick), func(i, j int) { pick[i], pick[j] = pick[j], pick[i] })
+	if f.N > 0 && len(pick) > f.N {
+		pick = pick[:f.N]
+	}
+	nw := 4
+	var mu sync.Mutex
+	var steps, replays, queries, qok, qdrift, drifts, mixed, viol, flaky int64
+	var driftSamples []string
+	reported := map[string]int{}
+	var wg sync.WaitGroup
+	for wk := 0; wk < nw; wk++ {
+		wg.Add(1)
+		go func(wk int) {
+			defer wg.Done()
+			var w *gnoWorld
+			for i := wk; i < len(pick); i += nw {
+				if stuckSteps.Load() >= 3 {
+					return
+				}
+				if w == nil {
+					w = newGnoWorld(cfg.Fine)
+				}
+				o, obs, _ := w.replay(pick[i])
+				if err := w.drain(); err != nil {
+					w = nil
+					if o.drift == "" {
+						o.drift = "drain: " + err.Error()
+					}
+				}
+				if o.violKey != "" && w != nil {
+					o2, _, _ := w.replay(pick[i]) // must reproduce (same application, later height)
+					if err := w.drain(); err != nil {
+						w = nil
+					}
+					if o2.violKey != o.violKey {
+						atomic.AddInt64(&flaky, 1)
+						mbt.Emit(map[string]any{"kind": "flaky", "key": o.violKey, "what": o.violWhat, "second": o2.violKey + " " + o2.drift})
+						continue
+					}
+				}
+				mu.Lock()
+				if o.violKey != "" {
+					viol++
+					reported[o.violKey]++
+					if reported[o.violKey] == 1 {
+						mbt.Mismatch(o.violKey, o.violWhat, map[string]any{"cfg": f.Extra, "app": "gnoland", "steps": pick[i], "observed": obs, "hooks": hooksAvailable})
+					}
+				}
+				if o.drift != "" {
+					drifts++
+					if len(driftSamples) < 5 {
+						driftSamples = append(driftSamples, o.drift)
+					}
+				}
+				if o.mixedSeen {
+					mixed++
+				}
+				steps += int64(len(pick[i]))
+				replays++
+				queries += int64(o.queries)
+				qok += int64(o.qok)
+				qdrift += int64(o.qdrift)
+				mu.Unlock()
+				if i < 2 {
+					mbt.Sample(map[string]any{"app": "gnoland", "schedule": actsOf(pick[i]), "queries": obs})
+				}
+			}
+		}(wk)
+	}
+	wg.Wait()
+	mbt.Summary(map[string]any{"behaviours": len(pick), "replays": replays, "steps": steps, "queries": queries, "queries_ok": qok,
+		"query_drift": qdrift, "gate_drift": drifts, "mixed_queries": mixed, "violating": viol, "flaky": flaky, "drift_samples": driftSamples,
+		"hooks": hooksAvailable, "violations_by_key": reported, "stuck_steps": stuckSteps.Load()})
+	mbt.Flush()
 }
